@@ -702,11 +702,13 @@ class Unary(Expression):
 
     @contextmanager
     def calculate(self, dst, long, force=False):
-        with self.arg.calculate(dst, long, force) as (dst, arg_long):
-            if long is None:
-                long = arg_long
-            self.calculate_unary(dst, long)
-            yield dst, long
+        # work on a copy: the operand may be a register of the user
+        with self.ebpf.get_free_register(dst) as dst:
+            with self.arg.calculate(dst, long, True) as (dst, arg_long):
+                if long is None:
+                    long = arg_long
+                self.calculate_unary(dst, long)
+                yield dst, long
 
     def contains(self, no):
         return self.arg.contains(no)
